@@ -30,8 +30,10 @@ namespace rcuh {
         std::map<long, Obj> objs;
         long dispose_inside = 0, sync_inside = 0, touch_disposed = 0, dispose_unretired = 0;
         std::string first;
+        bool in_destruct = false;
+        std::vector<long> destruct_log;     // objects disposed while the singleton is destroyed, in order
 
-        void reset( int n ) { depth.assign( n, 0 ); gen.assign( n, 0 ); objs.clear(); dispose_inside = sync_inside = touch_disposed = dispose_unretired = 0; first.clear(); }
+        void reset( int n ) { depth.assign( n, 0 ); gen.assign( n, 0 ); objs.clear(); dispose_inside = sync_inside = touch_disposed = dispose_unretired = 0; first.clear(); in_destruct = false; destruct_log.clear(); }
         std::vector<std::pair<int,long>> inside_now() const
         {
             std::vector<std::pair<int,long>> r;
@@ -45,6 +47,7 @@ namespace rcuh {
         }
     };
     inline Monitor& M() { static Monitor m; return m; }
+    inline std::string& report_line() { static std::string s; return s; }
 
     inline void disposer( void* p )
     {
@@ -54,6 +57,7 @@ namespace rcuh {
         for ( auto const& r : o->old_readers )
             if ( m.still_inside( r )) { ++m.dispose_inside; m.note( "dispose_inside_old_reader obj/reader", o->id, r.first ); }
         ++o->disposed;
+        if ( m.in_destruct ) m.destruct_log.push_back( o->id );
         vcase::emitf( "dispose %ld", o->id );
     }
 
@@ -97,7 +101,7 @@ namespace rcuh {
             o.retired = true; o.old_readers = M().inside_now();
             vcase::emitf( "retire %ld", p );
         }
-        void run( std::vector<vcase::op_t> const& ops, bool allow_batch )
+        void run( std::vector<vcase::op_t> const& ops, bool allow_batch, bool emit_done = false )
         {
             Monitor& m = M();
             for ( auto const& op : ops ) {
@@ -126,7 +130,7 @@ namespace rcuh {
                               if ( m.objs[v].disposed > 0 ) { ++m.touch_disposed; m.note( "touch_disposed obj/reader", v, tid ); }
                               vcase::emitf( "touch %ld", v );
                           } } break;
-                case 10: if ( allow_batch && depth == 0 ) {
+                case 10: if ( allow_batch && depth == 0 && op.size() > 1 ) {
                             std::vector<cds::urcu::retired_ptr> v;
                             for ( size_t i = 1; i < op.size(); ++i ) {
                                 mark_retired( op[i] );
@@ -142,12 +146,13 @@ namespace rcuh {
                 while ( depth > 0 ) do_runlock();
                 do_detach();
             }
+            if ( emit_done ) vcase::emitf( "done" );
         }
     };
 
     // run every case of the file; make_rcu(case) constructs the gc object, the returned pointer is deleted after the case
     template <class RCU, class Make>
-    int run_file( char const* path, Make make_rcu, bool allow_batch, size_t max_steps = 20000 )
+    int run_file( char const* path, Make make_rcu, bool allow_batch, size_t max_steps = 20000, bool buffered = false, std::function<void()> report = nullptr )
     {
         std::ifstream in( path );
         vcase::Case c;
@@ -162,16 +167,20 @@ namespace rcuh {
             atomics::atomic<long> src( 0 );
             vcase::run_workers( c, [&]( int t ) {
                 Client<RCU> cl; cl.tid = t; cl.src = &src;
-                cl.run( c.threads[t], allow_batch );
+                cl.run( c.threads[t], allow_batch, buffered );
             }, nullptr, nullptr, max_steps );
             bool overrun = vs::S().overrun;
             std::vector<std::string> log = vs::S().log;
             // destruction of the singleton (clear_buffer(max) for the buffered flavours) runs unscheduled
             size_t before = 0; for ( auto const& o : m.objs ) before += o.second.disposed;
+            if ( report ) report();      // object ids of the buffer operations (printed below, after endcase)
+            m.in_destruct = true;
             delete rcu;
+            m.in_destruct = false;
             // (after an overrun the workers ran free and were joined; the monitors of such a case are not meaningful)
             std::printf( "case %s\n", c.id.c_str());
             for ( auto const& l : log ) { std::fputs( l.c_str(), stdout ); std::fputc( '\n', stdout ); }
+            if ( !overrun ) for ( long p : m.destruct_log ) std::printf( "%d ev dispose %ld\n", n, p );   // Destruct: pseudo thread n
             std::printf( "endcase %s\n", overrun ? "fuel" : "finished" );
             long not_once = 0, retired = 0, at_destruct = 0; long bad = 0;
             for ( auto const& o : m.objs ) if ( o.second.retired ) { ++retired; if ( o.second.disposed != 1 ) { ++not_once; if ( !bad ) bad = o.first; } }
@@ -184,6 +193,7 @@ namespace rcuh {
             std::printf( "monitor not_disposed_exactly_once %ld %ld\n", not_once, bad );
             std::printf( "monitor retired %ld disposed_at_destruct %ld\n", retired, at_destruct );
             if ( !m.first.empty()) std::printf( "monitor first %s\n", m.first.c_str());
+            if ( !report_line().empty()) { std::printf( "%s\n", report_line().c_str()); report_line().clear(); }
             std::fflush( stdout );
         }
         return 0;
